@@ -188,8 +188,19 @@ def valuesAtStep (trials : List PTrial) (step : Int) : List XVal :=
   trials.filterMap (fun t => interGet t.inter step)
 
 /-- `_get_percentile_intermediate_result_over_trials` (its `ValueError` for an empty list is
-unreachable from `prune`). -/
+unreachable from `prune`): under MAXIMIZE the exact mirror of the minimisation case,
+`-np.nanpercentile(-values, percentile)` (repair of F41). -/
 def percentileOverTrials (completed : List PTrial) (d : Dir) (step : Int) (q : Rat) (nMin : Nat) : XVal :=
+  let vals := valuesAtStep completed step
+  if vals.length < nMin then .nan
+  else
+    match d with
+    | .maximize => xneg (npPercentile (vals.map xneg) q)
+    | .minimize => npPercentile vals q
+
+/-- the formulation BEFORE the repair of F41: `percentile = 100 - percentile` on the raw values under MAXIMIZE
+(kept so that a revert of the source is recognised: `C13Bridge.percentile_mirror_fails_with_inf`) -/
+def percentileOverTrialsOld (completed : List PTrial) (d : Dir) (step : Int) (q : Rat) (nMin : Nat) : XVal :=
   let vals := valuesAtStep completed step
   if vals.length < nMin then .nan
   else npPercentile vals (match d with | .maximize => 100 - q | .minimize => q)
@@ -214,6 +225,29 @@ def percentilePrune (c : PercentileCfg) (d : Dir) (trials : List PTrial) (t : PT
         if xisNan best then true
         else
           let p := percentileOverTrials completed d step c.q c.nMin
+          if xisNan p then false
+          else
+            match d with
+            | .maximize => xlt best p
+            | .minimize => xlt p best
+
+/-- `PercentilePruner.prune` with the pre-F41 percentile -/
+def percentilePruneOld (c : PercentileCfg) (d : Dir) (trials : List PTrial) (t : PTrial) : Bool :=
+  let completed := completedTrials trials
+  let n := completed.length
+  if n = 0 then false
+  else if n < c.nStartup then false
+  else
+    match lastStep t.inter with
+    | none => false
+    | some step =>
+      if step < (c.nWarmup : Int) then false
+      else if !isFirstInIntervalStep step (interSteps t) c.nWarmup c.interval then false
+      else
+        let best := bestOverSteps t d
+        if xisNan best then true
+        else
+          let p := percentileOverTrialsOld completed d step c.q c.nMin
           if xisNan p then false
           else
             match d with
